@@ -22,8 +22,15 @@ with or without offset-0 segments).  `exLoadedLike_resave`: a loader-like object
 meets the hypotheses and both saves succeed.  Observation (not reachable through the public API, so not a
 finding): orderFront tests `worklist[nextSlot]->get_offset() == 0` WITHOUT is_offset_initialized(); a never-laid-out
 segment listed before a segment at offset 0 would be ordered differently by the second save - segments.add only
-appends and set_offset is protected, so such a list cannot be built.  Stated, not proved:
-`SaveLoadSaveStatement`.  Correspondence: family load.
+appends and set_offset is protected, so such a list cannot be built.  SAVE . LOAD . SAVE (Props/Compose.lean): `Compose.save_load_save_noseg` - for an object WITHOUT
+segments whose section data are in memory: save, load the saved bytes with the model's `load` (eager or lazy, string-
+or file-backed stream), save the loaded object into the same initial stream - the second save succeeds and yields the
+same stream byte for byte (composition of `reload_reports_saved_noseg` (families/c02.py), `RoundTrip.preRes_outRel` /
+`saveTail_os_congr` (the write phase of a segment-less save reads a section only through its header fields, its
+written-condition and the bytes it writes) and `save_twice_no_segments`).  Stated, not proved: the same for objects
+with segments (`C06.SaveLoadSaveStatement` relative to the abstract `Loaded`; `Compose.SaveLoadSaveStatement` for the
+model's loader): missing are `members_recomputed` and a congruence of the segment loop of `save`.
+Correspondence: family load.
 Oracle: bytes of the first save == bytes of a second save of the same object; bytes of
 save(load(save(obj))) == bytes of save(obj).  Known open finding F13 (address-less NOBITS member with
 an alignment gap: the first save advances the file cursor by the gap, later saves do not) is keyed by
@@ -64,7 +71,11 @@ THEOREMS = ["ElfioVerif.C06.save_twice_witness",
             "ElfioVerif.C06.orderedSegments_perm_any",
             "ElfioVerif.C06.save_twice_front",
             "ElfioVerif.C06.save_idempotent_front",
-            "ElfioVerif.C06.exLoadedLike_resave"]
+            "ElfioVerif.C06.exLoadedLike_resave",
+            "ElfioVerif.RoundTrip.saveTail_os_congr",
+            "ElfioVerif.RoundTrip.preRes_outRel",
+            "ElfioVerif.Compose.save_load_save_noseg"]
+EXTRA_IMPORTS = ["ElfioVerif.Props.Compose"]
 SITES = ["save_", "lsws", "lst_", "lseg", "wsd"]
 RULE = ("writer-domain programs x 4 configurations: save, save again, reload (eager or lazy), save; plus "
         "well-formed bundled examples: load, save, reload, save; non-trivial = first save succeeded and the "
